@@ -4,7 +4,7 @@
    (C09_Model.v); [WellFormed] is the declarative conjunction of the rules of the
    property text (C09_Spec.v). Quantifiers: every document — any number of
    statements, stores, identities, scopes, any strings. *)
-From NV Require Import Base Regex Generated C02_Levels C04_DN C09_Model C09_Spec C09_Proofs.
+From NV Require Import Base Regex Generated C02_Levels C04_DN C09_Model C09_Spec C09_Proofs C09_Audit.
 Open Scope string_scope.
 
 (* an OCI document is accepted iff it obeys every rule *)
@@ -98,6 +98,127 @@ Theorem C09_model_meets_oracle : forall i, wf i = true -> spec_ok i (model i) = 
 Proof. exact model_meets_oracle. Qed.
 Print Assumptions C09_model_meets_oracle.
 
+(* ---------- audit (docs/audit/C09.md): clauses spelled out further ---------- *)
+
+(* acceptance through a possibly nil pointer, and of a document decoded from
+   JSON text ("null" decodes to the zero document): iff a document is there
+   and it obeys every rule *)
+Theorem C09_ptr_iff : forall k od, validate_ptr k od = EOk <-> exists d, od = Some d /\ WellFormed k d.
+Proof. exact ptr_iff. Qed.
+Print Assumptions C09_ptr_iff.
+
+Theorem C09_json_iff : forall k od, validate_json k od = EOk <-> exists d, od = Some d /\ WellFormed k d.
+Proof. exact json_iff. Qed.
+Print Assumptions C09_json_iff.
+
+(* "x509.subject identities parse, contain C, ST and O": the identity rule of
+   [WellFormed] with the mandatory attributes visible. ParseDistinguishedName
+   accepts v with map m iff v has no "=#", go-ldap parses it, every RDN is
+   single-valued with no attribute type twice, and C, ST, O are non-empty in m *)
+Theorem C09_dn_accepted_iff : forall v m, parse_distinguished_name v = DOk m <-> DNAccepted v m.
+Proof. exact dn_accepted_iff. Qed.
+Print Assumptions C09_dn_accepted_iff.
+
+Theorem C09_identity_rule_explicit : forall id, IdentityOK id <-> IdentityExplicit id.
+Proof. exact identity_explicit. Qed.
+Print Assumptions C09_identity_rule_explicit.
+
+(* the converse of C09_identities_mandatory: an x509.subject identity, anywhere
+   in the document, whose value parses but lacks C, ST or O (absent or empty),
+   or does not parse, makes the document unacceptable (both kinds) *)
+Theorem C09_mandatory_required : forall k d s id v rdns m f,
+  In s (d_stmts d) -> In id (s_ids s) -> x509_value id = Some v ->
+  parse_dn v = POk rdns -> add_rdns rdns [] = DOk m ->
+  In f ["C"; "ST"; "O"] -> lookup_default f m = "" ->
+  validate k d <> EOk.
+Proof. exact mandatory_required. Qed.
+Print Assumptions C09_mandatory_required.
+
+Theorem C09_unparsable_rejected : forall k d s id v e,
+  In s (d_stmts d) -> In id (s_ids s) -> x509_value id = Some v ->
+  parse_distinguished_name v = DErr e -> validate k d <> EOk.
+Proof. exact unparsable_rejected. Qed.
+Print Assumptions C09_unparsable_rejected.
+
+(* "and do not overlap", on the identities of the statement themselves:
+   IsSubsetDN(a, b) says every attribute of a occurs in b with the same value;
+   [NoOverlap (dn_maps ids)] of [WellFormed] says no x509.subject identity of
+   the statement is within another one (by position, so an identity given
+   twice overlaps with itself) *)
+Theorem C09_subset_within : forall a b, is_subset_dn a b = true <-> Within a b.
+Proof. exact subset_within. Qed.
+Print Assumptions C09_subset_within.
+
+Theorem C09_no_overlap_meaning : forall ids, NoOverlap (dn_maps ids) <-> IdentitiesDisjoint ids.
+Proof. exact no_overlap_identities. Qed.
+Print Assumptions C09_no_overlap_meaning.
+
+Theorem C09_identities_disjoint : forall k d s, validate k d = EOk -> In s (d_stmts d) ->
+  IdentitiesDisjoint (s_ids s).
+Proof. exact identities_disjoint. Qed.
+Print Assumptions C09_identities_disjoint.
+
+Theorem C09_overlap_rejected : forall k d s i j idi idj vi vj mi mj,
+  In s (d_stmts d) -> i <> j ->
+  nth_error (s_ids s) i = Some idi -> nth_error (s_ids s) j = Some idj ->
+  x509_value idi = Some vi -> x509_value idj = Some vj ->
+  parse_distinguished_name vi = DOk mi -> parse_distinguished_name vj = DOk mj ->
+  Within mi mj -> validate k d <> EOk.
+Proof. exact overlap_rejected. Qed.
+Print Assumptions C09_overlap_rejected.
+
+(* "every scope ... used by at most one statement". [WellFormed OCI] reads it as
+   "every scope string occurs once in the whole document" (the count map of
+   validateRegistryScopes). Read literally - no scope in two different
+   statements - it holds of every accepted document ... *)
+Theorem C09_scope_one_statement : forall d, validate_oci d = EOk -> ScopesOneStatement (d_stmts d).
+Proof. exact scope_one_statement. Qed.
+Print Assumptions C09_scope_one_statement.
+
+(* ... but "accepted iff the rules as literally worded" is FALSE: one statement
+   listing the same scope twice obeys them and is rejected (with the message
+   "present in multiple oci trust policy statements"). Replayed on the real
+   code: harness stream audit-witness, scope-twice-one-statement *)
+Theorem C09_scope_literal_refuted : exists d, WellFormedLiteralOCI d /\ validate_oci d = EScopeDup.
+Proof. exact scope_literal_refuted. Qed.
+Print Assumptions C09_scope_literal_refuted.
+
+(* the exact difference: acceptance = the literal rules + no statement lists a
+   scope twice *)
+Theorem C09_oci_iff_literal : forall d,
+  validate_oci d = EOk <->
+  WellFormedLiteralOCI d /\ Forall (fun s => NoDup (s_scopes s)) (d_stmts d).
+Proof. exact oci_iff_literal. Qed.
+Print Assumptions C09_oci_iff_literal.
+
+(* every way of constructing a verifier from documents in memory -
+   NewVerifierWithOptions with or without a trust store, the deprecated New (OCI
+   document only) and NewWithOptions (the OCI document is a parameter; one left
+   in the options is overwritten) - succeeds iff there is a trust store, a
+   document is given and every document given is well-formed *)
+Theorem C09_forced_constructors : forall c oci blob,
+  construct c oci blob = EOk <->
+  c <> CtorNilStore
+  /\ (oci <> None \/ blob_given c blob <> None)
+  /\ (forall d, oci = Some d -> WellFormed OCI d)
+  /\ (forall d, blob_given c blob = Some d -> WellFormed Blob d).
+Proof. exact forced_constructors. Qed.
+Print Assumptions C09_forced_constructors.
+
+(* the document left in the options of NewWithOptions plays no role *)
+Theorem C09_decoy_ignored : forall decoy oci blob,
+  construct (CtorWithOptions decoy) oci blob = construct CtorOptions oci blob.
+Proof. exact decoy_ignored. Qed.
+Print Assumptions C09_decoy_ignored.
+
+(* every statement of every document a constructed verifier holds yields a
+   level that enforces integrity unless the statement is skip *)
+Theorem C09_verifier_integrity : forall c oci blob, construct c oci blob = EOk ->
+  (forall d, oci = Some d -> Forall YieldsIntegrity (d_stmts d))
+  /\ (forall d, blob_given c blob = Some d -> Forall YieldsIntegrity (d_stmts d)).
+Proof. exact verifier_integrity. Qed.
+Print Assumptions C09_verifier_integrity.
+
 (* ---------- non-vacuity and regression witnesses ---------- *)
 
 Definition ex_oci : doc :=
@@ -147,4 +268,68 @@ Example C09_example_rejections :
         ["x509.subject:C=US,ST=WA,O=x"; "x509.subject:O=x,CN=y,ST=WA,C=US"] ["*"] false]) = EIdOverlap
   /\ validate_oci (mk_doc "1.0" [mk_stmt "a" (mk_sv "strict" [] "") ["ca:s"] ["*"] ["a/b"] false;
                                  mk_stmt "b" (mk_sv "strict" [] "") ["ca:s"] ["*"] ["a/b"] false]) = EScopeDup.
+Proof. repeat split; vm_compute; reflexivity. Qed.
+
+(* ---------- audit: the hypotheses of the theorems above are satisfiable ---------- *)
+
+(* C09_integrity on a custom level: strict with revocation skipped still
+   enforces integrity; a skip statement yields the skip level *)
+Example C09_example_integrity :
+  validate OCI ex_oci = EOk
+  /\ map level_obs (d_stmts ex_oci)
+     = [Some ("custom", "eeees"); Some ("skip", "sssss"); Some ("audit", "ellll")].
+Proof. split; vm_compute; reflexivity. Qed.
+
+(* C09_names_safe / C09_identities_mandatory / C09_identities_disjoint: a
+   store, an identity and a pair of identities of an accepted document *)
+Example C09_example_instances :
+  let s := nth 0 (d_stmts ex_oci) (mk_stmt "" (mk_sv "" [] "") [] [] [] false) in
+  validate OCI ex_oci = EOk /\ In s (d_stmts ex_oci)
+  /\ In "signingAuthority:valid-trust-store" (s_stores s)
+  /\ x509_value (nth 1 (s_ids s) "") = Some "C=US,S=CA,O=acme"
+  /\ parse_distinguished_name "C=US,S=CA,O=acme" = DOk [("O", "acme"); ("ST", "CA"); ("C", "US")]
+  /\ (exists m, parse_distinguished_name "C=US, ST=WA, O=wabbit-network.io, OU=org1" = DOk m).
+Proof.
+  cbv zeta. split; [vm_compute; reflexivity|]. split; [left; reflexivity|].
+  split; [right; left; reflexivity|]. split; [vm_compute; reflexivity|].
+  split; [vm_compute; reflexivity|]. eexists. vm_compute. reflexivity.
+Qed.
+
+(* C09_mandatory_required: "C=US,ST=WA" parses, is single-valued, lacks O, and
+   the document is rejected by the real rule (class EIdDN) *)
+Example C09_example_mandatory :
+  exists rdns m, parse_dn "C=US,ST=WA" = POk rdns /\ add_rdns rdns [] = DOk m
+    /\ lookup_default "O" m = "" /\ validate_oci (mk_doc "1.0" [stmt_no_O]) = EIdDN.
+Proof. exact mandatory_required_witness. Qed.
+
+(* C09_overlap_rejected: the first identity is within the third (positions 0 and 2) *)
+Example C09_example_overlap :
+  Within [("O", "x"); ("ST", "WA"); ("C", "US")] [("C", "US"); ("ST", "WA"); ("CN", "y"); ("O", "x")]
+  /\ parse_distinguished_name "C=US,ST=WA,O=x" = DOk [("O", "x"); ("ST", "WA"); ("C", "US")]
+  /\ parse_distinguished_name "O=x,CN=y,ST=WA,C=US" = DOk [("C", "US"); ("ST", "WA"); ("CN", "y"); ("O", "x")]
+  /\ validate_oci (mk_doc "1.0" [mk_stmt "a" (mk_sv "strict" [] "") ["ca:s"]
+        ["x509.subject:C=US,ST=WA,O=x"; "foo:bar"; "x509.subject:O=x,CN=y,ST=WA,C=US"] ["*"] false]) = EIdOverlap.
+Proof.
+  split; [apply subset_within; vm_compute; reflexivity|]. repeat split; vm_compute; reflexivity.
+Qed.
+
+(* C09_forced_constructors: each constructor accepts something; nothing is
+   constructed without a trust store; New does not take the blob document;
+   the decoy left in the options of NewWithOptions does not count *)
+Example C09_example_constructors :
+  construct CtorOptions (Some ex_oci) (Some ex_blob) = EOk
+  /\ construct CtorNilStore (Some ex_oci) (Some ex_blob) = EStoreNil
+  /\ construct CtorNew (Some ex_oci) (Some ex_blob_global_skip) = EOk
+  /\ construct CtorNew None (Some ex_blob) = EBothNil
+  /\ construct (CtorWithOptions (Some ex_oci)) None None = EBothNil
+  /\ construct (CtorWithOptions (Some ex_oci)) (Some ex_scope_twice) (Some ex_blob) = EScopeDup
+  /\ construct (CtorWithOptions (Some ex_scope_twice)) (Some ex_oci) None = EOk.
+Proof. repeat split; vm_compute; reflexivity. Qed.
+
+(* C09_model_meets_oracle: inputs inside the contract, for every constructor *)
+Example C09_example_contract :
+  wf (mk_input OCI (Some ex_oci) (Some ex_blob)) = true
+  /\ wf (mk_input_c Blob (Some ex_blob) None (CtorWithOptions (Some ex_oci))) = true
+  /\ o_new (model (mk_input_c Blob (Some ex_blob) (Some ex_oci) CtorNew)) = EOk
+  /\ o_new (model (mk_input_c OCI None (Some ex_blob) CtorNew)) = EBothNil.
 Proof. repeat split; vm_compute; reflexivity. Qed.
